@@ -28,7 +28,7 @@ POOL = [
     "1.5", "0.0", "-2.5", "true", "false",
     '""', '"a"', '"abc"', '"é日本"', '"1"', '" "', "'sym",
     "[]", "[1]", "[1, 2, 3]", "[nil]", "[[1, 2], [3]]", '["a", "b"]',
-    "{}", "{a: 1}", "{_p: 1, b: {c: 2}}", "%{}", "%{1: 2}", '%{"a": 1, [1]: 2}',
+    "{}", "{a: 1}", "{_p: 1, b: {c: 2}}", "%{}", "%{1: 2}", '%{"a": 1, [1]: 2}', "%{1: 2, [1]: 3}", "%{1: 2, 3: 4}", "%{[1]: 1, {a: 1}: 2}",
     "(1:3)", "(nil:nil)", "(1:10:0)", "(3:1:-1)", '("a":"c")', "(nil:nil:nil)", "(1:nil:2)",
     "{|x| x}", "{|x, y| x + y}", "m{|x| x}", "{|| 1/0}", "{|x| yield x}",
     "<{|x| yield x if x < 3; recur(x + 1)}>.new(0)", "[1, 2]._iter",
